@@ -361,6 +361,14 @@ def run_property(pid, tier, seed, replay=None):
         bad = scan_forbidden()
         o.broken += ["forbidden: " + b for b in bad]
         o.discharged = o.obligations if not problems and not bad and not o.broken else max(0, o.obligations - len(o.broken))
+        # thorough tier: independent re-check of the compiled property modules with leanchecker
+        if tier == "thorough" and ok:
+            for m in modules:
+                rc, outl = sh(["lake", "env", "leanchecker", m], cwd=LEAN, timeout=3600)
+                if rc != 0:
+                    o.broken.append("leanchecker %s: %s" % (m, (outl.strip().splitlines() or ["failed"])[-1][:200]))
+                else:
+                    o.notes.append("leanchecker %s: ok" % m)
     # 4 harness
     okc, outc = cargo_build()
     if not okc:
